@@ -11,7 +11,6 @@ import (
 	"fmt"
 	"strings"
 	"testing"
-	"testing/synctest"
 	"time"
 
 	"github.com/saucelabs/forwarder/internal/zzverif/explore"
@@ -201,61 +200,6 @@ func segment(x *explore.X, label string, m h1x.Msg, free bool) [][]byte {
 	return [][]byte{wire}
 }
 
-type stream interface {
-	Send([]byte) error
-	Recv() []byte
-	Close()
-}
-
-type hop struct {
-	srv   *world.Server
-	tls   *tls.Config // non-nil: the next hop speaks TLS
-	conns []stream
-	seen  []int // complete requests already consumed per conn
-}
-
-func (h *hop) poll() {
-	for {
-		p := h.srv.Accept()
-		if p == nil {
-			return
-		}
-		if h.tls != nil {
-			h.conns = append(h.conns, world.TLSServer(p, h.tls))
-		} else {
-			h.conns = append(h.conns, p)
-		}
-		h.seen = append(h.seen, 0)
-	}
-}
-
-// next returns the requests that became complete since the last call, with the conn index.
-func (h *hop) next() (msgs []httpwire.Msg, conn []int, problem string) {
-	h.poll()
-	for i, c := range h.conns {
-		st := httpwire.ParseRequests(c.Recv())
-		if st.State == "syntax" {
-			return nil, nil, fmt.Sprintf("next hop received a malformed request: %s (stream %q)", st.Err, clip(c.Recv()))
-		}
-		for k := h.seen[i]; k < len(st.Msgs); k++ {
-			msgs = append(msgs, st.Msgs[k])
-			conn = append(conn, i)
-		}
-		h.seen[i] = len(st.Msgs)
-		if st.State != "" && len(msgs) == 0 && len(st.Rest) > 0 {
-			problem = fmt.Sprintf("next hop holds an incomplete request (%s): %q", st.State, clip(st.Rest))
-		}
-	}
-	return msgs, conn, problem
-}
-
-func clip(b []byte) string {
-	if len(b) > 600 {
-		return string(b[:300]) + fmt.Sprintf("…(%d bytes)…", len(b)-600) + string(b[len(b)-300:])
-	}
-	return string(b)
-}
-
 type env struct {
 	mitm        bool
 	viaUpstream bool
@@ -266,7 +210,7 @@ type env struct {
 // expectForwarded compares what the next hop received with what the client sent (statement of C01).
 func expectForwarded(x *explore.X, e *env, r reqSpec, got httpwire.Msg) {
 	fail := func(sig, format string, a ...any) {
-		x.Failf(sig, "%s\n  client sent: %q\n  next hop got: %q", fmt.Sprintf(format, a...), clip(r.msg().Head()), clip(got.Raw[:got.HeadLen]))
+		x.Failf(sig, "%s\n  client sent: %q\n  next hop got: %q", fmt.Sprintf(format, a...), world.Clip(r.msg().Head()), world.Clip(got.Raw[:got.HeadLen]))
 	}
 	x.Check()
 	if got.Method != r.method {
@@ -541,11 +485,10 @@ func scenario(x *explore.X, product bool, ncfg int) {
 		x.Failf("harness/start", "%v", err)
 		return
 	}
-	srv, _ := w.Server(nextHopAddr)
-	nh := &hop{srv: srv}
+	nh, _ := w.Hop(nextHopAddr, nil)
 	if e.mitm {
 		leaf := pki.Leaf([]string{originHost}, -time.Hour, time.Hour)
-		nh.tls = &tls.Config{Certificates: []tls.Certificate{leaf}}
+		nh.TLS = &tls.Config{Certificates: []tls.Certificate{leaf}}
 	}
 	raw, err := w.Client()
 	if err != nil {
@@ -554,7 +497,7 @@ func scenario(x *explore.X, product bool, ncfg int) {
 	}
 	e.clientIP = raw.C.LocalAddr().String()
 	e.clientIP = e.clientIP[:strings.LastIndex(e.clientIP, ":")]
-	var cl stream = raw
+	var cl world.Stream = raw
 	if e.mitm {
 		raw.Send([]byte("CONNECT " + originHost + ":443 HTTP/1.1\r\nHost: " + originHost + ":443\r\n\r\n"))
 		if got := string(raw.Recv()); got != "HTTP/1.1 200 OK\r\n\r\n" {
@@ -575,7 +518,7 @@ func scenario(x *explore.X, product bool, ncfg int) {
 	for i, rq := range seq {
 		last := i == len(seq)-1
 		if st := raw.C.Status(); st.EOF || st.Reset {
-			x.Failf("connection-closed-early", "proxy closed the client connection before request %d of %d (client got %q)", i+1, len(seq), clip(cl.Recv()))
+			x.Failf("connection-closed-early", "proxy closed the client connection before request %d of %d (client got %q)", i+1, len(seq), world.Clip(cl.Recv()))
 			break
 		}
 		if last {
@@ -585,24 +528,24 @@ func scenario(x *explore.X, product bool, ncfg int) {
 		} else {
 			cl.Send(rq.msg().Wire())
 		}
-		x.Logf("request %d: %q", i+1, clip(rq.msg().Head()))
+		x.Logf("request %d: %q", i+1, world.Clip(rq.msg().Head()))
 		methodsSent = append(methodsSent, rq.method)
-		msgs, conns, problem := nh.next()
+		msgs, conns, problem := nh.Next()
 		if problem != "" && len(msgs) == 0 {
-			x.Failf("next-hop-incomplete", "request %d: %s; client got %q", i+1, problem, clip(cl.Recv()))
+			x.Failf("next-hop-incomplete", "request %d: %s; client got %q", i+1, problem, world.Clip(cl.Recv()))
 			break
 		}
 		if len(msgs) != 1 {
-			x.Failf("next-hop-count", "request %d: next hop received %d requests, want 1 (client got %q; dials %v)", i+1, len(msgs), clip(cl.Recv()), w.Net.Dials())
+			x.Failf("next-hop-count", "request %d: next hop received %d requests, want 1 (client got %q; dials %v)", i+1, len(msgs), world.Clip(cl.Recv()), w.Net.Dials())
 			break
 		}
-		x.Logf("next hop got: %q", clip(msgs[0].Raw[:msgs[0].HeadLen]))
+		x.Logf("next hop got: %q", world.Clip(msgs[0].Raw[:msgs[0].HeadLen]))
 		expectForwarded(x, e, rq, msgs[0])
-		nh.conns[conns[0]].Send(okResponse(rq.method))
+		nh.Conns[conns[0]].Send(okResponse(rq.method))
 		// keep the client side in sync: exactly i+1 complete responses so far
 		rs := httpwire.ParseResponses(cl.Recv(), methodsSent, false)
 		if len(rs.Msgs) != i+1 || rs.State != "" {
-			x.Failf("client-response-sync", "after request %d the client holds %d complete responses, state %q err %q: %q", i+1, len(rs.Msgs), rs.State, rs.Err, clip(cl.Recv()))
+			x.Failf("client-response-sync", "after request %d the client holds %d complete responses, state %q err %q: %q", i+1, len(rs.Msgs), rs.State, rs.Err, world.Clip(cl.Recv()))
 			break
 		}
 		outcome = append(outcome, fmt.Sprintf("%s/%s/%d", msgs[0].Method, msgs[0].Framing, len(msgs[0].Body)))
@@ -618,9 +561,7 @@ func scenario(x *explore.X, product bool, ncfg int) {
 	if err := w.Stop(); err != nil {
 		x.Failf("shutdown", "%v", err)
 	}
-	for _, c := range nh.conns {
-		c.Close()
-	}
+	nh.Close()
 	if l := world.Leaks(); l != "" {
 		x.Failf("goroutine-leak", "goroutines left after shutdown:\n%s", l)
 	}
@@ -631,11 +572,7 @@ func TestC01(t *testing.T) {
 		"one client connection carrying 0-2 history requests (5 kinds) and one request under test = method(6) x target form(3-4) x path/query(7) x header shape(24) x body framing(3) x size(9) x chunking(4) x version(2) x write segmentation(9) x configuration(direct, upstream HTTP proxy, MITM'd CONNECT tunnel to a TLS origin); all combinations with at most D deviations from the default request (D=3 quick, 4 thorough); plus the full product body framing(2) x size(9) x chunking(4) x segmentation(9) x history(11) x configuration(2 quick, 3 thorough) for POST are executed on the real HTTPProxy over the in-memory network and every request captured at the next hop is compared with expectForwarded; non-trivial = at least one forwarded request was compared")
 	s.Assume = []string{"simnet models TCP (in-order, reliable, segment boundaries preserved per write)", "httpwire (independent strict parser) is trusted", "crypto/tls of the Go toolchain is used by the scripted TLS peers"}
 	bubble := func(f func(x *explore.X)) func(x *explore.X) {
-		return func(x *explore.X) {
-			if p := world.Bubble(t, func(g func()) { synctest.Test(t, func(*testing.T) { g() }) }, func() { f(x) }); p != nil {
-				world.Repanic(x, p)
-			}
-		}
+		return func(x *explore.X) { world.Run(t, x, func() { f(x) }) }
 	}
 	s.Add(explore.Scenario{Name: "request", Remote: true, MaxDev: map[string]int{"quick": 3, "thorough": 4},
 		Run: bubble(func(x *explore.X) { scenario(x, false, 3) })})
